@@ -350,6 +350,38 @@ type stringerVal struct{ s string }
 
 func (s stringerVal) String() string { return s.s }
 
+// outcomes whose rendering (Error / String / Unwrap: user code run by the library while it turns the outcome into a
+// response item) panics. Since 06bba78 executeItemWithMiddleware has a last-resort recovery for them.
+type bValueRecvErr struct{ msg string }
+
+func (e bValueRecvErr) Error() string { return e.msg }
+
+type bBadErr struct{}
+
+func (bBadErr) Error() string { panic("scripted: Error() panics") }
+
+type bBadUnwrap struct{}
+
+func (bBadUnwrap) Error() string { return "scripted error with a panicking Unwrap" }
+func (bBadUnwrap) Unwrap() error { panic("scripted: Unwrap() panics") }
+
+type bBadStringer struct{ p *string }
+
+func (s bBadStringer) String() string { return *s.p }
+
+// the variant of a scripted outcome is a function of the position of the item, the length of the batch and the
+// scripted reason (so that the protocol line determines it)
+func (r *bReq) variantOf(idx int) int { return idx + len(r.items) + int(r.items[idx].reason) }
+
+func bPanicVariant(variant int) int { return variant % 8 }
+
+// poisonPanic: item idx panics with a value whose rendering panics again: the second panic is raised inside the
+// deferred recovery of executeItem and unwinds through every batch-item middleware (none of them can mask it) up
+// to the last-resort recovery of executeItemWithMiddleware.
+func (r *bReq) poisonPanic(idx int) bool {
+	return r.items[idx].out == "p" && bPanicVariant(r.variantOf(idx)) >= 5
+}
+
 type scriptHandler struct{}
 
 // payloadReg maps the payload pointers of the requests in flight to (request state, item index): a handler is
@@ -456,7 +488,7 @@ func scriptRunSt(ctx context.Context, st *reqState, idx int) (kmip.OperationPayl
 			kmipserver.ClearIdPlaceholder(ctx)
 		}
 	}
-	variant := idx + len(st.req.items) + int(it.reason)
+	variant := st.req.variantOf(idx)
 	switch it.out {
 	case "ok":
 		if variant%2 == 0 {
@@ -474,14 +506,23 @@ func scriptRunSt(ctx context.Context, st *reqState, idx int) (kmip.OperationPayl
 			return kmip.NewUnknownPayload(kmip.Operation(it.op)), errors.Join(errors.New("other"), e)
 		}
 	case "x":
-		switch variant % 3 {
+		switch variant % 6 {
 		case 0:
 			return nil, errors.New("plain")
 		case 1:
 			return nil, fmt.Errorf("wrapped: %w", io.ErrUnexpectedEOF)
-		default:
+		case 2:
 			// a *kmipserver.Error is not a kmipserver.Error for errors.As
 			return nil, &kmipserver.Error{Reason: kmip.ResultReasonItemNotFound}
+		// errors whose RENDERING panics (user code run by handleBatchItemError: Error, Unwrap): the item must
+		// still come out failed, echoing operation and id, with the placeholder cleared
+		case 3:
+			var e *bValueRecvErr // the classic typed nil returned as an error: its value-receiver Error method panics
+			return nil, e
+		case 4:
+			return nil, bBadErr{}
+		default:
+			return kmip.NewUnknownPayload(kmip.Operation(it.op)), bBadUnwrap{}
 		}
 	case "P":
 		e := kmipserver.Error{Reason: kmip.ResultReason(it.reason), Message: "scripted panic"}
@@ -490,7 +531,7 @@ func scriptRunSt(ctx context.Context, st *reqState, idx int) (kmip.OperationPayl
 		}
 		panic(fmt.Errorf("wrapped: %w", e))
 	case "p":
-		switch variant % 5 {
+		switch bPanicVariant(variant) {
 		case 0:
 			panic("scripted panic")
 		case 1:
@@ -499,9 +540,16 @@ func scriptRunSt(ctx context.Context, st *reqState, idx int) (kmip.OperationPayl
 			panic(42)
 		case 3:
 			panic(errors.New("scripted"))
-		default:
+		case 4:
 			var m map[string]int
 			m["x"] = 1 // runtime error
+		// panic values whose rendering panics again, inside the recovery of executeItem (see bPoisonPanic)
+		case 5:
+			panic(bBadErr{})
+		case 6:
+			panic(bBadStringer{})
+		default:
+			panic(bBadUnwrap{})
 		}
 	}
 	st.bad = "unknown scripted outcome"
